@@ -71,6 +71,18 @@ CAT = [
     ["ibm_db2", "ORGANIZE BY ROW", {"organize_by": "ROW"}, {"table_properties": {"organize_by": "ROW"}}],
     ["athena", "ESCAPED BY '\\\\'", {"escaped_by": "\\"}, {"table_properties": {"escaped_by": "\\"}}],
     ["athena", "LINES TERMINATED BY ';'", {"lines_terminated_by": "';'"}, {"table_properties": {"lines_terminated_by": "';'"}}],
+    # the same clauses with zero / false / empty values: a value is captured whatever it is
+    ["snowflake", "DATA_RETENTION_TIME_IN_DAYS=0", {"table_properties": {"data_retention_time_in_days": 0}}, {"table_properties": {"data_retention_time_in_days": 0}}],
+    ["snowflake", "CHANGE_TRACKING=FALSE", {"table_properties": {"change_tracking": False}}, {"table_properties": {"change_tracking": False}}],
+    ["snowflake", "MAX_DATA_EXTENSION_TIME_IN_DAYS=0", {"table_properties": {"max_data_extension_time_in_days": "0"}},
+     {"table_properties": {"max_data_extension_time_in_days": "0"}}],
+    ["snowflake", "COMMENT=''", {"comment": "''"}, {"comment": "''"}],
+    ["mysql", "AUTO_INCREMENT=0", {"auto_increment": "0"}, {"table_properties": {"auto_increment": "0"}}],
+    ["hql", "COMMENT ''", {"comment": "''"}, {"comment": "''"}],
+    ["hql", "LOCATION ''", {"location": "''"}, {"table_properties": {"location": "''"}}],
+    ["hql", "CLUSTERED BY (a) INTO 0 BUCKETS", {"clustered_by": ["a"], "into_buckets": "0"}, {"table_properties": {"clustered_by": ["a"], "into_buckets": "0"}}],
+    ["hql", "TBLPROPERTIES ('k1'='')", {"tblproperties": {"'k1'": "''"}}, {"table_properties": {"tblproperties": {"'k1'": "''"}}}],
+    ["bigquery", "OPTIONS (description='')", {"options": [{"description": "''"}]}, {"table_properties": {"options": [{"description": "''"}]}}],
 ]
 BODIES = {
     "plain": "CREATE TABLE s.t (a int, b varchar(10), dt date)",
